@@ -15,9 +15,10 @@ PROP = "C19"
 class AloneFailure(Exception):
     """A single call, in a thread of its own, after the run's set-up phase, does not return."""
 
-    def __init__(self, outcome, K, call, gran, pre):
+    def __init__(self, outcome, K, call, gran, pre, detail=None):
         Exception.__init__(self, outcome)
         self.outcome, self.K, self.call, self.gran, self.pre = outcome, K, call, gran, pre
+        self.detail = detail or {}
 
 BATCH = 16
 
@@ -46,6 +47,12 @@ class Worker:
                 raise procs.HarnessError("alone run: " + herr)
             want = self.oracle.query(K, call)
             if not pre and tuple(res) != tuple(want[:2]):
+                plain = procs.fork_call(sched.run_plain_thread, self.sf, K, call, pre, timeout=120.0)
+                if tuple(plain) == tuple(res):
+                    # same outcome without any instrumentation: the library behaves differently in a
+                    # thread that did not import it than in the main thread of a fresh interpreter
+                    raise AloneFailure("thread_ne_main_thread", K, call, gran, pre,
+                                       {"in_a_thread": list(res), "main_thread_of_a_fresh_interpreter": list(want[:2])})
                 raise procs.HarnessError(
                     "instrumented alone-run differs from uninstrumented oracle: %r vs %r for %r" % (res, want[:2], call))
             if steps < 1:
@@ -381,7 +388,7 @@ def run_one(base_seed, i, want_sample=False):
         spec = {"table": e.K, "threads": [[e.call]], "policy": {"kind": "explicit", "gran": e.gran},
                 "seed": "alone", "budget": 10 ** 9, "probes": [], "pre": list(e.pre), "theme": "alone", "info": {},
                 "explicit": {"first": 0, "exits": [], "switches": []}}
-        rep = {"violation_class": e.outcome, "violation": {"detail": {"phase": "a single call in a thread of its own, after the set-up phase", "call": list(e.call), "pre": list(e.pre)}},
+        rep = {"violation_class": e.outcome, "violation": {"detail": dict(e.detail, phase="a single call in a thread of its own, after the set-up phase", call=[str(x)[:300] for x in e.call], pre=list(e.pre))},
                "spec": _jsonable(spec), "threads": spec["threads"], "replayable": True, "original_length": 0, "switches": 0,
                "seed": base_seed, "run": i, "engine": "schedsim", "property": PROP}
         procs.request_stop()
@@ -554,8 +561,17 @@ def _tuplify(spec):
 def replay(rep):
     W = worker()
     spec = _tuplify(rep["spec"])
-    r = W.run_spec(spec)
-    v = judge(W, spec, r)
+    try:
+        if spec.get("theme") == "alone":      # a single call in a thread of its own
+            gran = spec["policy"].get("gran") or "instr"
+            W.alone_run(spec["table"], spec["threads"][0][0], gran if gran == "native-line" else "instr",
+                        tuple(spec.get("pre", ())))
+            v = None
+        else:
+            r = W.run_spec(spec)
+            v = judge(W, spec, r)
+    except AloneFailure as e:
+        v = {"class": e.outcome, "detail": e.detail}
     W.close()
     if v and v["class"] == rep["violation_class"]:
         return True, json.dumps(v["detail"])[:600]
